@@ -18,7 +18,7 @@ LEVEL = "model_checking"
 RULE = ("response tables: full product status x media type x schema kind for single-response operations, a pair matrix for "
         "two responses (incl. default/2XX/invalid keys), component-response references, one reusable response under several statuses of an operation, references carrying their own description/summary; inputs: for every documented status "
         "each RM-inst body, undocumented statuses (JSON, non-UTF-8 and empty bodies) x raise_on_unexpected_status x the four call variants; non-trivial = the "
-        "operation was generated and at least one documented response was decoded; unions whose members interact (closed models sharing a key, primitive before constructed member), free-form and numeric text/* schemas next to typed ones, an undocumented status outside http.HTTPStatus, raw reply headers under any casing and repeated fields")
+        "operation was generated and at least one documented response was decoded; unions whose members interact (closed models sharing a key, primitive before constructed member), free-form and numeric text/* schemas next to typed ones, an undocumented status outside http.HTTPStatus, raw reply headers under any casing and repeated fields; responses documenting several media types where the unsupported entry carries another schema or none")
 FLOOR = 0.5
 ASSUMPTIONS = ["httpx.Response decoding (json(), text, content) is trusted",
                "text/*: raw text or schema-decoded text accepted; octet-stream: file object or bytes accepted; empty-schema JSON: value or None accepted"]
@@ -27,7 +27,13 @@ STATUSES = [200, 201, 204, 404, 500]
 # bodies of responses with an undocumented status: JSON, bytes that are not UTF-8 (a proxy's latin-1 / binary error page), nothing
 UNDOC_BODIES = [(b'{"unexpected": true}', "application/json", "json"), (b"caf\xe9 \xff\xfe\x00 page", "text/html; charset=latin-1", "non-utf8"), (b"", None, "empty")]
 MEDIAS = ["application/json", "application/vnd.x+json", "application/json; charset=utf-8", "text/plain", "text/html",
-          "application/octet-stream", "none", "xml-then-json", "component-ref", "component-ref-described"]
+          "application/octet-stream", "none", "xml-then-json", "component-ref", "component-ref-described",
+          # several media types in one response, the unsupported one carrying ANOTHER schema (or none): the supported entry decides
+          "xmlstr-then-json", "yamlbare-then-json", "json-then-xmlstr", "yamlother-then-text"]
+MULTI = {"xmlstr-then-json": ("application/json", [("application/xml", {"schema": {"type": "string"}}), ("application/json", None)]),
+         "yamlbare-then-json": ("application/json", [("application/x-yaml", {}), ("application/json", None)]),
+         "json-then-xmlstr": ("application/json", [("application/json", None), ("application/xml", {"schema": {"type": "string"}})]),
+         "yamlother-then-text": ("text/plain", [("application/x-yaml", {"schema": {"type": "object", "required": ["zz"], "properties": {"zz": {"type": "integer"}}}}), ("text/plain", None)])}
 RKINDS = ["model_ref", ["array", "model_ref"], "str", "int", "num", "bool", "date", "datetime", "uuid", "enum_str", "enum_int",
           ["union", "model_ref", "model2"], ["union", "int", "str"], "inline_object", "any", "no-schema", ["array", "int"],
           ["array", "date"], ["nullable", "model_ref", "oneof"], "file", "null",
@@ -88,6 +94,8 @@ def _response_obj(media, kind, comps, components_responses, name="R"):
     mt = {} if sch is None else {"schema": sch}
     if media == "xml-then-json":
         return {"description": "d", "content": {"application/xml": copy.deepcopy(mt), "application/json": mt}}
+    if media in MULTI:
+        return {"description": "d", "content": {m: (copy.deepcopy(other) if other is not None else mt) for m, other in MULTI[media][1]}}
     if media.startswith("component-ref"):
         name = media.partition(":")[2] or name        # "component-ref:<name>": several statuses share ONE reusable response
         components_responses[name] = {"description": "d", "content": {"application/json": mt}}
@@ -98,6 +106,8 @@ def _response_obj(media, kind, comps, components_responses, name="R"):
 
 
 def _eff_media(media):
+    if media in MULTI:
+        return MULTI[media][0]
     return "application/json" if media == "xml-then-json" or media.startswith("component-ref") else media
 
 
@@ -121,6 +131,8 @@ def cases(tier):
             for kind in kinds:
                 if kind == "file" and media not in ("application/octet-stream",):
                     continue
+                if media == "yamlother-then-text" and kind != "str":
+                    continue      # text/* with anything but a string schema is a recorded finding of its own
                 if isinstance(kind, str) and kind in SPECIAL and not _eff_media(media).startswith("application/json") and "+json" not in media:
                     continue      # member-interaction unions: JSON only (text / binary with constructed schemas is a recorded finding)
                 if status in (204,) and media != "none" and tier == "quick" and kind not in ("model_ref", "str"):
